@@ -17,8 +17,7 @@ pub struct Universe {
     pub log: Vec<String>,
 }
 
-pub fn build_universe(rng: &mut Rng, n_replicas: usize, steps: usize, cfg: &GenCfg) -> Universe {
-    let mut log = vec![];
+pub fn build_universe(rng: &mut Rng, n_replicas: usize, steps: usize, cfg: &GenCfg, log: &mut Vec<String>) -> Universe {
     let mut reps: Vec<AutoCommit> = vec![];
     let mut base = AutoCommit::new_with_encoding(TextEncoding::UnicodeCodePoint).with_actor(gen::actor(rng, 0));
     for _ in 0..rng.range(1, 6) {
@@ -108,7 +107,7 @@ pub fn build_universe(rng: &mut Rng, n_replicas: usize, steps: usize, cfg: &GenC
     head_sets.push(all.get_heads());
     head_sets.sort();
     head_sets.dedup();
-    Universe { changes, replicas: reps, head_sets, log }
+    Universe { changes, replicas: reps, head_sets, log: log.clone() }
 }
 
 fn coq_universe(u: &[Change]) -> String {
@@ -134,7 +133,20 @@ pub fn run(rng: &mut Rng, tier: &str, out: &str) -> Report {
         }
         let nrep = rng.range(2, 4) as usize;
         let steps = if thorough { rng.range(20, 160) } else { rng.range(15, 70) } as usize;
-        let mut u = build_universe(rng, nrep, steps, &cfg);
+        // the generator drives the public editing API; a panic in there (e.g. a debug assertion of the library
+        // comparing its fast and slow index paths) is a failure of the editing call, reported for the properties
+        // about local edits, and this universe is abandoned — it is not a crash of the harness
+        let mut gen_log: Vec<String> = vec![];
+        let mut u = match guard(|| build_universe(rng, nrep, steps, &cfg, &mut gen_log)) {
+            Ok(u) => u,
+            Err(p) => {
+                rep.count("generator_panics");
+                rep.fail(&["C03", "C37"], &format!("panic|edit|{}", p.signature()),
+                    &format!("a public editing / merge call panicked while generating a history: {} at {}", p.message, p.location),
+                    json!({"log": gen_log, "universe": ui}));
+                continue;
+            }
+        };
         let n = u.changes.len();
         let cands = object_ids(&u.changes);
         let total_ops: usize = u.changes.iter().map(|c| c.len()).sum();
